@@ -230,6 +230,22 @@ func init() {
 			return x.uf(uf, SInt, ts...), true
 		}
 	}
+	// reflect.Append(s, x...) / reflect.Append(s, a, b): ONE append of all the values (reflect grows the slice
+	// once, to the final length): spread form as a function of the slice and the argument vector, individual
+	// arguments as a left fold
+	libModels["reflect.Append"] = func(x *Exec, st *State, e *ast.CallExpr, a []Value, _ []types.Type) (Value, bool) {
+		if e.Ellipsis.IsValid() && len(a) == 2 {
+			return x.uf("rvAppendSpreadOp", SInt, asTerm(a[0]), asTerm(a[1])), true
+		}
+		if e.Ellipsis.IsValid() {
+			return nil, false
+		}
+		t := asTerm(a[0])
+		for _, v := range a[1:] {
+			t = x.uf("rvAppend1Op", SInt, t, asTerm(v))
+		}
+		return t, true
+	}
 	// SetMapIndex(m, k, v): the map content of m becomes rvMapSet(content, k, v)
 	libModels["reflect.Value.SetMapIndex"] = func(x *Exec, st *State, e *ast.CallExpr, a []Value, _ []types.Type) (Value, bool) {
 		m, k, v := asTerm(a[0]), asTerm(a[1]), asTerm(a[2])
@@ -251,6 +267,10 @@ func init() {
 			x.declare("(assert (> "+t.S+" 0))", "ax_rtbasic_nn:"+t.S)
 		}
 		return t, true
+	}
+	// Pointer() of a function value: its code pointer (closures of one literal share it)
+	libModels["reflect.Value.Pointer"] = func(x *Exec, st *State, e *ast.CallExpr, a []Value, _ []types.Type) (Value, bool) {
+		return Term{"(codeOf " + x.rvRead(st, "X", asTerm(a[0])).S + ")", SInt}, true
 	}
 	libModels["reflect.Value.Len"] = func(x *Exec, st *State, e *ast.CallExpr, a []Value, _ []types.Type) (Value, bool) {
 		return x.uf("rvLen", SInt, asTerm(a[0])), true
